@@ -1,7 +1,7 @@
 """C04 - vector and matrix algebra obeys the algebraic laws for every shape (structural clauses)."""
 import sympy as sp
 from sympy import Symbol, Function, S, Sum, sqrt
-from ..ir import AnalysisBroken, Undecided, show, strip, strip_casts, walk_stmts, stmt_exprs, walk_expr, calls
+from ..ir import AnalysisBroken, Undecided, show, strip, strip_casts, walk_stmts, stmt_exprs, walk_expr, calls, all_exprs
 from ..symx import Symx, Arr, is_zero
 from .. import guards as G
 from ..guardtable import INSTANCES, L
@@ -34,10 +34,17 @@ def canon(t):
     return ren(t)
 
 
+# filled by vector_size_invariant(): len(X.components) -> X.dimension for Vector objects, once the class invariant is established
+SIZE_SUBST = {}
+
+
 def same(x, y):
     if x == y:
         return True
     try:
+        if SIZE_SUBST:
+            x = x.xreplace(SIZE_SUBST) if isinstance(x, sp.Basic) else x
+            y = y.xreplace(SIZE_SUBST) if isinstance(y, sp.Basic) else y
         cx, cy = canon(sp.expand(x)), canon(sp.expand(y))
         if cx == cy:
             return True
@@ -78,8 +85,57 @@ def check(prog, ctx):
     for inst in INSTANCES:
         if inst.get('c04'):
             run_instance(prog, ctx, inst, wrappers, 'C04.a', 'C04.d', 'C04.d', 'C04.d')
+    vector_size_invariant(prog, ctx)
     schemas(prog, ctx)
     spellings(prog, ctx)
+
+
+def vector_size_invariant(prog, ctx):
+    """Class invariant of Vector: components.size() == dimension.  Every constructor and every method that writes
+    either field leaves them equal (a copy from another Vector inherits that Vector's invariant)."""
+    R = 'C04.b'
+    SIZE_SUBST.clear()
+    cls = L + 'Vector'
+    bad, n = [], 0
+    hyp = lambda t: t.replace(lambda e: isinstance(e, Symbol) and e.name.startswith('len(') and e.name.endswith('.components)'),
+                              lambda e: Symbol(e.name[4:-len('.components)')] + '.dimension', integer=True)) if isinstance(t, sp.Basic) else t
+    for f in prog.all_functions():
+        if f.cls != cls or f.body is None:
+            continue
+        sx = Symx(prog, f)
+        writes = set('this.' + i_['field'] for i_ in f.inits if i_.get('field') in ('components', 'dimension') and i_.get('written'))
+        for e_ in all_exprs(f, into_lambdas=False):
+            if e_.get('k') == 'Bin' and e_['op'] in ('=', '+=', '-=', '*=', '/=') and strip(e_['lhs']).get('k') == 'Member' \
+                    and strip(e_['lhs']).get('name') in ('components', 'dimension') and strip(strip(e_['lhs'])['base']).get('k') == 'This':
+                writes.add('this.' + strip(e_['lhs'])['name'])          # whole-field assignment (element stores do not change the size)
+            if e_.get('k') == 'Un' and e_['op'] in ('++', '--') and strip(e_['e']).get('k') == 'Member' and strip(e_['e']).get('name') == 'dimension':
+                writes.add('this.dimension')
+            if e_.get('k') == 'Call' and e_.get('kind') == 'method' and (e_.get('callee') or {}).get('name') in \
+                    ('resize', 'assign', 'push_back', 'pop_back', 'erase', 'insert', 'clear', 'emplace_back', 'swap') \
+                    and strip(e_['obj']).get('k') == 'Member' and strip(e_['obj']).get('name') == 'components' and strip(strip(e_['obj'])['base']).get('k') == 'This':
+                writes.add('this.components')
+        if not writes and not f.d.get('ctor'):
+            continue
+        if any(i_.get('delegating') for i_ in f.inits):
+            continue                       # a delegating constructor establishes whatever its target establishes
+        n += 1
+        try:
+            outs = [o for o in sx.run() if o.kind != 'exit']
+            for o in outs:
+                c_, d_ = o.state.env.get('this.components'), o.state.env.get('this.dimension')
+                if c_ is None and d_ is None and not f.d.get('ctor'):
+                    continue
+                ln_ = c_.length if isinstance(c_, Arr) else (sp.Integer(len(c_.args)) if isinstance(c_, sp.Tuple) else
+                                                           (Symbol('len(%s)' % c_.name, integer=True, nonnegative=True) if isinstance(c_, Symbol) else None))
+                if ln_ is None or d_ is None or sp.simplify(hyp(ln_) - hyp(d_)) != 0:
+                    bad.append('%s leaves components of size %s with dimension %s' % (f.sig.split('libphysica::')[-1][:60], ln_, d_))
+        except Undecided as ex_:
+            bad.append('%s: %s' % (f.name, ex_))
+    ok = n >= 3 and not bad
+    ctx.decide(R, 'Vector:size-invariant', prog.fn(cls + '::Size'), ok, 'components.size() == dimension after every constructor and every writer of either field (%d functions)' % n,
+               'the size invariant of Vector is not established: %s' % '; '.join(bad[:3]))
+    if ok:
+        SIZE_SUBST[Symbol('len(this.components)', integer=True, nonnegative=True)] = dim
 
 
 def arr_elem(v, idx):
